@@ -484,10 +484,14 @@ func stuckConfirmed(s *gates.Sched, m *mon, recs []*opRec) (stuck, abandon bool)
 	if abandon {
 		return false, true
 	}
-	deadline := time.Now().Add(window)
+	t0 := time.Now()
+	deadline := t0.Add(window)
 	for time.Now().Before(deadline) {
 		time.Sleep(20 * time.Millisecond)
 		if len(s.Parked()) > 0 || s.AllDone() {
+			if time.Since(t0) > 5*time.Second {
+				wedges.Add(1) // a Close waited out its closeTimeout on a wedged entry
+			}
 			return false, false
 		}
 		m.mu.Lock()
